@@ -547,6 +547,26 @@ func extractPipe(w *strings.Builder) error {
 			listShapeFacts = append(listShapeFacts, f)
 		}
 	}
+	compileListFacts := condStrings("internal/j5s/j5convert/service.go", "checkListMethod")
+	listCheckCalled := false
+	if fd := funcDecl(cs, "visitServiceMethodNode"); fd != nil {
+		ast.Inspect(fd.Body, func(n ast.Node) bool {
+			if is, ok := n.(*ast.IfStmt); ok && is.Init != nil {
+				if as, ok := is.Init.(*ast.AssignStmt); ok && len(as.Rhs) == 1 {
+					if ce, ok := as.Rhs[0].(*ast.CallExpr); ok && exprString(ce.Fun) == "ww.checkListMethod" {
+						for _, st := range is.Body.List {
+							if es, ok := st.(*ast.ExprStmt); ok {
+								if c2, ok := es.X.(*ast.CallExpr); ok && exprString(c2.Fun) == "ww.addError" {
+									listCheckCalled = true
+								}
+							}
+						}
+					}
+				}
+			}
+			return true
+		})
+	}
 	// outer type switch of buildListRequest's callback: which j5schema field types it looks at
 	listOuterArms := []string{}
 	if fd := funcDecl(lst, "buildListRequest"); fd != nil {
@@ -617,6 +637,8 @@ func extractPipe(w *strings.Builder) error {
 	fmt.Fprintf(w, "def fillRequestListFacts : List String := %s\n", leanStrList(fillListFacts))
 	fmt.Fprintf(w, "def listRequestShapeFacts : List String := %s\n", leanStrList(listShapeFacts))
 	fmt.Fprintf(w, "def listRequestOuterArms : List String := %s\n", leanStrList(listOuterArms))
+	fmt.Fprintf(w, "def compileListCheckCalled : Bool := %s\n", leanBool(listCheckCalled))
+	fmt.Fprintf(w, "def compileListCheckFacts : List String := %s\n", leanStrList(compileListFacts))
 	fmt.Fprintf(w, "def swaggerRangeLoops : List String := %s\n", leanStrList(swaggerServiceLoops))
 	fmt.Fprintf(w, "end J5V.Generated.Pipe\n")
 	return nil
